@@ -323,6 +323,11 @@ pub open spec fn built(old: &Context, new: &Context, r: ExprRef, node: Expr, t: 
     new.extends(old) && new.wf() && new.has(r) && new.nodes()[r] == node && new.ty(r) == t && new.den(r) == d && new.den_sorted(r)
 }
 
+/// postcondition of the operator builders: frame, invariant, and what the result denotes (not which node represents it)
+pub open spec fn made(old: &Context, new: &Context, r: ExprRef, t: Type, d: Den) -> bool {
+    new.extends(old) && new.wf() && new.has(r) && new.ty(r) == t && new.den(r) == d && new.den_sorted(r)
+}
+
 /// postcondition shared by every rewrite rule: the context only grew, stays well-formed, and the result (if any)
 /// has denotation `d` and type `t`
 pub open spec fn rule_post(old: &Context, new: &Context, res: Option<ExprRef>, d: Den, t: Type) -> bool {
